@@ -37,6 +37,7 @@ func runC14(w *World, r *Report, tier string) {
 	kindRuleTexts(r)
 	unresolvedSeeds(w, r)
 	entries := entryFuncs(w, r, "transform.GetExtendedSpatialIdsWithinRadiusOfLine", "transform.FitClearanceAroundExtendedSpatialID")
+	ruleChunks(w, r, closureOf(w, entries))
 	own := map[*ssa.Function]bool{}
 	for _, f := range entries {
 		own[f] = true
@@ -136,6 +137,7 @@ func runC18(w *World, r *Report, tier string) {
 	r.Rule("CRS-ARGS", "forward uses SafeTransform(Code(consts.GeoCrs), Code(projectedCrs)), backward SafeTransform(Code(projectedCrs), Code(consts.GeoCrs))")
 	r.Rule("ERRUSED", "the error of the transform is tested in every iteration; its non-nil edge returns errors.ValueConvertErrorCode; the Safe variant is used so that an unknown EPSG code becomes an error")
 	unresolvedSeeds(w, r)
+	ruleChunks(w, r, closureOf(w, entryFuncs(w, r, "shape.ConvertPointListToProjectedPointList", "shape.ConvertProjectedPointListToPointList")))
 	for _, it := range []struct {
 		fn  string
 		fwd bool
